@@ -40,6 +40,10 @@ type yielder struct {
 	ctr      atomic.Uint64
 	pGosched uint64 // out of 1024
 	pSleep   uint64 // out of 1024
+	// boost adds a sleep probability (out of 1024) at one yield point, e.g. a slow MessageRoot or a
+	// slow Clone of the harness-owned value type, to widen the window between the store's critical
+	// section and what it does outside it.
+	boost [8]uint64
 }
 
 func splitmix(x uint64) uint64 {
@@ -60,7 +64,7 @@ func (y *yielder) at(point int) {
 	switch {
 	case v < y.pGosched:
 		runtime.Gosched()
-	case v < y.pGosched+y.pSleep:
+	case v < y.pGosched+y.pSleep+y.boost[point&7]:
 		time.Sleep(time.Duration(1+(h>>40)%40) * time.Microsecond)
 	}
 }
